@@ -67,35 +67,55 @@ def main():
             proto_out.write(json.dumps(boot.full()).encode() + b"\n")
             proto_out.flush()
             continue
-        r, w = os.pipe()
-        pid = os.fork()
-        if pid == 0:
-            code = 0
+        # A world may end with {"continue": <request>}: a *restart* (fault F5).  The next
+        # world is forked from this template again (fresh interpreter state) and receives
+        # only what the previous one made durable (serialized bytes/text in the request).
+        cur = req
+        hops = 0
+        while True:
+            data = run_world(cur, boot, dispatch)
             try:
-                os.close(r)
-                signal.signal(signal.SIGALRM, signal.SIG_DFL)
-                signal.alarm(int(req.get("timeout", 120)))
-                try:
-                    res = dispatch.dispatch(req, boot)
-                except BaseException:
-                    res = {"harness_error": traceback.format_exc()}
-                signal.alarm(0)
-                _write_all(w, json.dumps(res).encode())
-            except BaseException:
-                code = 3
-            finally:
-                os._exit(code)
-        os.close(w)
-        data = _read_all(r)
-        os.close(r)
-        _, status = os.waitpid(pid, 0)
-        if not data or status != 0:
-            data = json.dumps(
-                {"harness_error": "world died: wait status %d, %d bytes" % (status, len(data))}
-            ).encode()
+                res = json.loads(data)
+            except ValueError:
+                break
+            nxt = res.get("continue") if isinstance(res, dict) else None
+            if not nxt or hops >= 4:
+                break
+            hops += 1
+            cur = nxt
         proto_out.write(data + b"\n")
         proto_out.flush()
     return 0
+
+
+def run_world(req, boot, dispatch):
+    r, w = os.pipe()
+    pid = os.fork()
+    if pid == 0:
+        code = 0
+        try:
+            os.close(r)
+            signal.signal(signal.SIGALRM, signal.SIG_DFL)
+            signal.alarm(int(req.get("timeout", 120)))
+            try:
+                res = dispatch.dispatch(req, boot)
+            except BaseException:
+                res = {"harness_error": traceback.format_exc()}
+            signal.alarm(0)
+            _write_all(w, json.dumps(res).encode())
+        except BaseException:
+            code = 3
+        finally:
+            os._exit(code)
+    os.close(w)
+    data = _read_all(r)
+    os.close(r)
+    _, status = os.waitpid(pid, 0)
+    if not data or status != 0:
+        data = json.dumps(
+            {"harness_error": "world died: wait status %d, %d bytes" % (status, len(data))}
+        ).encode()
+    return data
 
 
 if __name__ == "__main__":
